@@ -146,4 +146,382 @@ example : WF [⟨0xfff, 1⟩, ⟨W - 0x1000 - 1, NONE⟩] := by
 example : (mapSet [⟨0xfff, 1⟩, ⟨W - 0x1000 - 1, NONE⟩] 0x800 ⟨0xfff, 2⟩ true) =
     (.ok, [⟨0x7ff, 1⟩, ⟨0xfff, 2⟩, ⟨W - 0x1800 - 1, NONE⟩]) := by decide
 
+
+/-!
+## Layout tables (`sys_set_layout`): a successful call has made every range assignment
+
+`setLayout` puts a table of regions into the map of a slot; a region with the direct action
+also puts `[0, last-first] -> RDIRECT` into the reverse direct map.  Allocation outcomes are an
+arbitrary stream.  The call reports `ok` or `nomem` (and `nomem` only if the stream contains a
+failure); after `ok` *both* maps exist, are well-formed and denote the fold of the point-wise
+updates of the table: no assignment has been skipped.
+-/
+/-- function view of a map slot (`NULL` = nothing translated) -/
+def denOpt : Option Map → Nat → Int
+  | none, _ => NONE
+  | some m, a => den m 0 a
+
+def WFOpt : Option Map → Prop
+  | none => True
+  | some m => WF m
+
+def regionGuarded (g : LRegion) : Prop := g.first ≤ g.last ∧ g.last < W
+
+/-- point-wise specification of the target map -/
+def layoutSpec : (Nat → Int) → List LRegion → (Nat → Int)
+  | f, [] => f
+  | f, g :: rest => layoutSpec (fun a => if g.first ≤ a ∧ a ≤ g.last then g.meth else f a) rest
+
+/-- point-wise specification of the reverse direct map -/
+def revSpec : (Nat → Int) → List LRegion → (Nat → Int)
+  | f, [] => f
+  | f, g :: rest =>
+    revSpec (if g.direct then (fun a => if a ≤ g.last - g.first then RDIRECT else f a) else f) rest
+
+/-! ### Helper lemmas
+
+Results of the model functions are always named by an equation `f … = (st, m', al')`; projections of
+an application of `mapSet`/`setAll`/`layoutLoop` to a literal `[]` are never handed to `dsimp`
+(reducing them would evaluate the whole of `addrxlat_map_set` symbolically). -/
+
+theorem range_endoff (g : LRegion) (hg : regionGuarded g) :
+    (g.last + W - g.first) % W = g.last - g.first := by
+  have h1 := hg.1
+  have h2 := hg.2
+  simp only [W] at *; omega
+
+theorem status_ne : ¬ Status.nomem = Status.ok := by decide
+
+/-- One range assignment on the allocation stream (by components). -/
+theorem mapSetS_comp (m : Map) (h : WF m) (addr : Nat) (r : Range) (hr : addr + r.endoff < W)
+    (al : List Bool) :
+    ((mapSetS m addr r al).1 = .ok ∧ (mapSetS m addr r al).2.1 = (mapSet m addr r true).2 ∧
+        (false ∈ (mapSetS m addr r al).2.2 → false ∈ al)) ∨
+      ((mapSetS m addr r al).1 = .nomem ∧ false ∈ al) := by
+  have hok := set_ok m h addr r hr
+  unfold mapSetS
+  split
+  · cases al with
+    | nil => exact Or.inl ⟨hok, rfl, fun x => x⟩
+    | cons b bs =>
+      cases b with
+      | true => exact Or.inl ⟨hok, rfl, fun x => List.mem_cons_of_mem _ x⟩
+      | false =>
+        rcases set_nomem m addr r with e | e
+        · refine Or.inr ⟨?_, List.mem_cons_self ..⟩
+          show (mapSet m addr r false).1 = .nomem
+          rw [e]
+        · refine Or.inl ⟨?_, ?_, fun x => List.mem_cons_of_mem _ x⟩
+          · show (mapSet m addr r false).1 = .ok
+            rw [e]; exact hok
+          · show (mapSet m addr r false).2 = _
+            rw [e]
+  · exact Or.inl ⟨hok, rfl, fun x => x⟩
+
+/-- One range assignment on the allocation stream. -/
+theorem mapSetS_spec (m : Map) (h : WF m) (addr : Nat) (r : Range) (hr : addr + r.endoff < W)
+    (al : List Bool) :
+    (∃ al', mapSetS m addr r al = (.ok, (mapSet m addr r true).2, al') ∧ (false ∈ al' → false ∈ al)) ∨
+      (∃ m' al', mapSetS m addr r al = (.nomem, m', al') ∧ false ∈ al) := by
+  rcases mapSetS_comp m h addr r hr al with ⟨h1, h2, h3⟩ | ⟨h1, h3⟩
+  · revert h1 h2 h3
+    generalize mapSetS m addr r al = x
+    obtain ⟨st, mm, al'⟩ := x
+    intro h1 h2 h3
+    dsimp only at h1 h2 h3
+    subst h1 h2
+    exact Or.inl ⟨al', rfl, h3⟩
+  · revert h1
+    generalize mapSetS m addr r al = x
+    obtain ⟨st, mm, al'⟩ := x
+    intro h1
+    dsimp only at h1
+    subst h1
+    exact Or.inr ⟨mm, al', rfl, h3⟩
+
+/-- Result of a successful assignment: well-formed, non-empty, point-wise update. -/
+theorem mapSetS_ok (m : Map) (h : WF m) (addr : Nat) (r : Range) (hr : addr + r.endoff < W) :
+    WF (mapSet m addr r true).2 ∧ (mapSet m addr r true).2 ≠ [] ∧
+      ∀ a, a < W → den (mapSet m addr r true).2 0 a =
+        if addr ≤ a ∧ a ≤ addr + r.endoff then r.meth else den m 0 a :=
+  ⟨Or.inr (set_wf m h addr r hr).2, (set_wf m h addr r hr).1, fun a ha => set_den m h addr r hr a ha⟩
+
+theorem rev_lt (g : LRegion) (hg : regionGuarded g) :
+    0 + (⟨(g.last + W - g.first) % W, RDIRECT⟩ : Range).endoff < W := by
+  show 0 + (g.last + W - g.first) % W < W
+  rw [range_endoff g hg]; have := hg.2; omega
+
+theorem setAll_one (m : Map) (addr : Nat) (r : Range) (al : List Bool) :
+    setAll m [(addr, r)] al =
+      if (mapSetS m addr r al).1 = .ok then (.ok, (mapSetS m addr r al).2.1, (mapSetS m addr r al).2.2)
+      else mapSetS m addr r al := by
+  simp only [setAll]
+
+/-- the table of `act_direct` on an existing map -/
+theorem setAll_rev (f : Nat → Int) (g : LRegion) (hg : regionGuarded g) (m : Map) (al : List Bool)
+    (hm : WF m) (hden : ∀ a, a < W → den m 0 a = f a) :
+    (∃ r' al', setAll m g.revTable al = (.ok, r', al') ∧ r' ≠ [] ∧ WF r' ∧
+        (∀ a, a < W → den r' 0 a = if a ≤ g.last - g.first then RDIRECT else f a) ∧
+        (false ∈ al' → false ∈ al)) ∨
+      (∃ r' al', setAll m g.revTable al = (.nomem, r', al') ∧ false ∈ al) := by
+  have he := range_endoff g hg
+  have hlt := rev_lt g hg
+  have ho := mapSetS_ok m hm 0 _ hlt
+  unfold LRegion.revTable
+  rw [setAll_one]
+  rcases mapSetS_spec m hm 0 _ hlt al with ⟨al', e, h3⟩ | ⟨m', al', e, h3⟩
+  · left
+    rw [e]
+    dsimp only
+    rw [if_pos rfl]
+    refine ⟨_, al', rfl, ho.2.1, ho.1, ?_, h3⟩
+    intro a ha
+    rw [ho.2.2 a ha, hden a ha]
+    show (if 0 ≤ a ∧ a ≤ 0 + (g.last + W - g.first) % W then RDIRECT else f a) = _
+    rw [he]
+    simp
+  · right
+    rw [e]
+    dsimp only
+    rw [if_neg status_ne]
+    exact ⟨m', al', rfl, h3⟩
+
+theorem slotNew_some (m : Map) (al : List Bool) : slotNew (some m) al = (some m, al) := rfl
+theorem slotNew_nil : slotNew none [] = (some [], []) := rfl
+theorem slotNew_true (bs : List Bool) : slotNew none (true :: bs) = (some [], bs) := rfl
+theorem slotNew_false (bs : List Bool) : slotNew none (false :: bs) = (none, bs) := rfl
+
+/-- `internal_map_new` on a slot: a (possibly new, empty) map with the same function view, or a
+failed allocation. -/
+theorem slotNew_spec (s : Option Map) (hs : WFOpt s) (al : List Bool) :
+    (∃ m al', slotNew s al = (some m, al') ∧ WF m ∧ (∀ a, den m 0 a = denOpt s a) ∧
+        (false ∈ al' → false ∈ al) ∧ (∀ r0, s = some r0 → m = r0)) ∨
+      (∃ al', slotNew s al = (none, al') ∧ false ∈ al) := by
+  cases s with
+  | some m => exact Or.inl ⟨m, al, rfl, hs, fun _ => rfl, fun x => x, fun r0 h => by injection h⟩
+  | none =>
+    cases al with
+    | nil => exact Or.inl ⟨[], [], rfl, Or.inl rfl, fun _ => rfl, fun x => x, fun r0 h => by cases h⟩
+    | cons b bs =>
+      cases b with
+      | true =>
+        exact Or.inl ⟨[], bs, rfl, Or.inl rfl, fun _ => rfl, fun x => List.mem_cons_of_mem _ x,
+          fun r0 h => by cases h⟩
+      | false => exact Or.inr ⟨bs, rfl, List.mem_cons_self ..⟩
+
+theorem layoutPlain_some (rev : Option Map) (m : Map) (al al' : List Bool) (regs : List (Nat × Range))
+    (h : slotNew rev al = (some m, al')) :
+    layoutPlain rev regs al = ((setAll m regs al').1, some (setAll m regs al').2.1, (setAll m regs al').2.2) := by
+  unfold layoutPlain; rw [h]
+
+theorem layoutPlain_none (rev : Option Map) (al al' : List Bool) (regs : List (Nat × Range))
+    (h : slotNew rev al = (none, al')) :
+    layoutPlain rev regs al = (.nomem, none, al') := by
+  unfold layoutPlain; rw [h]
+
+/-- The nested call of `act_direct`. -/
+theorem layoutPlain_rev (rev : Option Map) (hr : WFOpt rev) (g : LRegion) (hg : regionGuarded g)
+    (al : List Bool) :
+    (∃ r' al', layoutPlain rev g.revTable al = (.ok, some r', al') ∧ r' ≠ [] ∧ WF r' ∧
+        (∀ a, a < W → den r' 0 a = if a ≤ g.last - g.first then RDIRECT else denOpt rev a) ∧
+        (false ∈ al' → false ∈ al)) ∨
+      (∃ r' al', layoutPlain rev g.revTable al = (.nomem, r', al') ∧ false ∈ al) := by
+  rcases slotNew_spec rev hr al with ⟨m, al1, e, hm, hden, hal, _⟩ | ⟨al1, e, hal⟩
+  · rw [layoutPlain_some _ _ _ _ _ e]
+    rcases setAll_rev (denOpt rev) g hg m al1 hm (fun a _ => hden a) with
+      ⟨r', al2, e2, h1, h2, h3, h4⟩ | ⟨r', al2, e2, h4⟩
+    · rw [e2]
+      exact Or.inl ⟨r', al2, rfl, h1, h2, h3, fun x => hal (h4 x)⟩
+    · rw [e2]
+      exact Or.inr ⟨some r', al2, rfl, hal h4⟩
+  · rw [layoutPlain_none _ _ _ _ e]
+    exact Or.inr ⟨none, al1, rfl, hal⟩
+
+theorem layoutLoop_plain (m : Map) (rev : Option Map) (g : LRegion) (rest : List LRegion)
+    (al : List Bool) (hd : g.direct = false) (st2 : Status) (m2 : Map) (al2 : List Bool)
+    (hs : mapSetS m g.first g.range al = (st2, m2, al2)) :
+    layoutLoop m rev (g :: rest) al =
+      if st2 = .ok then layoutLoop m2 rev rest al2 else (st2, m2, rev, al2) := by
+  rw [layoutLoop]
+  simp only [hd, Bool.false_eq_true, if_false, if_true, hs]
+
+theorem layoutLoop_direct (m : Map) (rev : Option Map) (g : LRegion) (rest : List LRegion)
+    (al : List Bool) (hd : g.direct = true) (rev1 : Option Map) (al1 : List Bool)
+    (hp : layoutPlain rev g.revTable al = (.ok, rev1, al1)) (st2 : Status) (m2 : Map) (al2 : List Bool)
+    (hs : mapSetS m g.first g.range al1 = (st2, m2, al2)) :
+    layoutLoop m rev (g :: rest) al =
+      if st2 = .ok then layoutLoop m2 rev1 rest al2 else (st2, m2, rev1, al2) := by
+  rw [layoutLoop]
+  simp only [hd, if_true, hp, hs]
+
+theorem layoutLoop_direct_fail (m : Map) (rev : Option Map) (g : LRegion) (rest : List LRegion)
+    (al : List Bool) (hd : g.direct = true) (rev1 : Option Map) (al1 : List Bool)
+    (hp : layoutPlain rev g.revTable al = (.nomem, rev1, al1)) :
+    layoutLoop m rev (g :: rest) al = (.nomem, m, rev1, al1) := by
+  rw [layoutLoop]
+  simp only [hd, if_true, hp, status_ne, if_false]
+
+
+/-- The region loop: after `ok` both maps denote the fold of the table; `nomem` only after a failed
+allocation.  `fm`, `fr` are any functions agreeing with the maps below `W`. -/
+theorem layoutLoop_spec : ∀ (regs : List LRegion) (m : Map) (rev : Option Map) (al : List Bool)
+    (fm fr : Nat → Int), WF m → WFOpt rev → (∀ a, a < W → fm a = den m 0 a) →
+    (∀ a, a < W → fr a = denOpt rev a) → (∀ g ∈ regs, regionGuarded g) →
+    (∃ m' rev' al', layoutLoop m rev regs al = (.ok, m', rev', al') ∧ WF m' ∧
+        (∀ a, a < W → den m' 0 a = layoutSpec fm regs a) ∧ WFOpt rev' ∧
+        (∀ a, a < W → denOpt rev' a = revSpec fr regs a) ∧
+        (((∃ g ∈ regs, g.direct = true) ∨ (∃ r0, rev = some r0 ∧ r0 ≠ [])) →
+          ∃ r', rev' = some r' ∧ r' ≠ [])) ∨
+      (∃ m' rev' al', layoutLoop m rev regs al = (.nomem, m', rev', al') ∧ false ∈ al) := by
+  intro regs
+  induction regs with
+  | nil =>
+    intro m rev al fm fr hm hrv hfm hfr _
+    refine Or.inl ⟨m, rev, al, rfl, hm, fun a ha => (hfm a ha).symm, hrv, fun a ha => (hfr a ha).symm, ?_⟩
+    rintro (⟨g, hg, _⟩ | ⟨r0, h1, h2⟩)
+    · cases hg
+    · exact ⟨r0, h1, h2⟩
+  | cons g rest ih =>
+    intro m rev al fm fr hm hrv hfm hfr hg
+    have hgg := hg g (List.mem_cons_self ..)
+    have hg' : ∀ g' ∈ rest, regionGuarded g' := fun g' h => hg g' (List.mem_cons_of_mem _ h)
+    have he := range_endoff g hgg
+    have hend : g.first + g.range.endoff = g.last := by
+      show g.first + (g.last + W - g.first) % W = g.last
+      rw [he]; have := hgg.1; omega
+    have hlt : g.first + g.range.endoff < W := by rw [hend]; exact hgg.2
+    -- the action of the region
+    have pre : (∃ rev1 al1,
+          (∀ st2 m2 al2, mapSetS m g.first g.range al1 = (st2, m2, al2) →
+            layoutLoop m rev (g :: rest) al =
+              if st2 = .ok then layoutLoop m2 rev1 rest al2 else (st2, m2, rev1, al2)) ∧
+          WFOpt rev1 ∧
+          (∀ a, a < W → (if g.direct = true then
+              (fun a => if a ≤ g.last - g.first then RDIRECT else fr a) else fr) a = denOpt rev1 a) ∧
+          (false ∈ al1 → false ∈ al) ∧
+          ((g.direct = true ∨ ∃ r0, rev = some r0 ∧ r0 ≠ []) → ∃ r', rev1 = some r' ∧ r' ≠ [])) ∨
+        (∃ m' rev' al', layoutLoop m rev (g :: rest) al = (.nomem, m', rev', al') ∧ false ∈ al) := by
+      by_cases hd : g.direct = true
+      · rcases layoutPlain_rev rev hrv g hgg al with ⟨r', al1, e, h1, h2, h3, h4⟩ | ⟨r', al1, e, h4⟩
+        · refine Or.inl ⟨some r', al1, fun st2 m2 al2 hs => layoutLoop_direct m rev g rest al hd _ _ e _ _ _ hs,
+            h2, fun a ha => ?_, h4, fun _ => ⟨r', rfl, h1⟩⟩
+          rw [if_pos hd]
+          show (if a ≤ g.last - g.first then RDIRECT else fr a) = den r' 0 a
+          rw [h3 a ha, hfr a ha]
+        · exact Or.inr ⟨m, r', al1, layoutLoop_direct_fail m rev g rest al hd _ _ e, h4⟩
+      · have hd' : g.direct = false := (Bool.not_eq_true _).mp hd
+        refine Or.inl ⟨rev, al, fun st2 m2 al2 hs => layoutLoop_plain m rev g rest al hd' _ _ _ hs,
+            hrv, fun a ha => ?_, fun x => x, ?_⟩
+        · rw [if_neg hd]; exact hfr a ha
+        · rintro (h | h)
+          · exact absurd h hd
+          · exact h
+    rcases pre with ⟨rev1, al1, hstep, hrv1, hfr1, hal1, hsome⟩ | h
+    · rcases mapSetS_spec m hm g.first g.range hlt al1 with ⟨al2, e, h3⟩ | ⟨m', al2, e, h3⟩
+      · rw [hstep _ _ _ e, if_pos rfl]
+        have ho := mapSetS_ok m hm g.first g.range hlt
+        have hfm' : ∀ a, a < W →
+            (fun a => if g.first ≤ a ∧ a ≤ g.last then g.meth else fm a) a =
+              den (mapSet m g.first g.range true).2 0 a := by
+          intro a ha
+          rw [ho.2.2 a ha, hend, ← hfm a ha]
+          rfl
+        rcases ih (mapSet m g.first g.range true).2 rev1 al2 _ _ ho.1 hrv1 hfm' hfr1 hg' with
+          ⟨m', rev', al', e', k1, k2, k3, k4, k5⟩ | ⟨m', rev', al', e', k1⟩
+        · refine Or.inl ⟨m', rev', al', e', k1, k2, k3, k4, ?_⟩
+          rintro (⟨g', hg1, hg2⟩ | h)
+          · rcases List.mem_cons.mp hg1 with rfl | hg1
+            · exact k5 (Or.inr (hsome (Or.inl hg2)))
+            · exact k5 (Or.inl ⟨g', hg1, hg2⟩)
+          · exact k5 (Or.inr (hsome (Or.inr h)))
+        · exact Or.inr ⟨m', rev', al', e', hal1 (h3 k1)⟩
+      · rw [hstep _ _ _ e, if_neg status_ne]
+        exact Or.inr ⟨m', rev1, al2, rfl, hal1 h3⟩
+    · exact Or.inr h
+
+theorem setLayout_some (s : Sys) (regs : List LRegion) (al : List Bool) (m : Map) (al' : List Bool)
+    (h : slotNew s.map al = (some m, al')) (st : Status) (m' : Map) (rev' : Option Map)
+    (al'' : List Bool) (hl : layoutLoop m s.rev regs al' = (st, m', rev', al'')) :
+    setLayout s regs al = (st, ⟨some m', rev'⟩) := by
+  unfold setLayout
+  rw [h]
+  dsimp only
+  rw [hl]
+
+theorem setLayout_none (s : Sys) (regs : List LRegion) (al : List Bool) (al' : List Bool)
+    (h : slotNew s.map al = (none, al')) : setLayout s regs al = (.nomem, s) := by
+  unfold setLayout
+  rw [h]
+
+/-- The whole call. -/
+theorem setLayout_spec (s : Sys) (hm : WFOpt s.map) (hr : WFOpt s.rev) (regs : List LRegion)
+    (hg : ∀ g ∈ regs, regionGuarded g) (al : List Bool) :
+    (∃ m' rev', setLayout s regs al = (.ok, ⟨some m', rev'⟩) ∧ WF m' ∧
+        (∀ a, a < W → den m' 0 a = layoutSpec (denOpt s.map) regs a) ∧ WFOpt rev' ∧
+        (∀ a, a < W → denOpt rev' a = revSpec (denOpt s.rev) regs a) ∧
+        ((∃ g ∈ regs, g.direct = true) → ∃ r', rev' = some r' ∧ r' ≠ [])) ∨
+      ((setLayout s regs al).1 = .nomem ∧ false ∈ al) := by
+  rcases slotNew_spec s.map hm al with ⟨m, al1, e, hwf, hden, hal, _⟩ | ⟨al1, e, hal⟩
+  · rcases layoutLoop_spec regs m s.rev al1 (denOpt s.map) (denOpt s.rev) hwf hr
+        (fun a _ => (hden a).symm) (fun _ _ => rfl) hg with
+      ⟨m', rev', al2, e2, k1, k2, k3, k4, k5⟩ | ⟨m', rev', al2, e2, k1⟩
+    · rw [setLayout_some s regs al m al1 e _ _ _ _ e2]
+      exact Or.inl ⟨m', rev', rfl, k1, k2, k3, k4, fun h => k5 (Or.inl h)⟩
+    · rw [setLayout_some s regs al m al1 e _ _ _ _ e2]
+      exact Or.inr ⟨rfl, hal k1⟩
+  · rw [setLayout_none s regs al al1 e]
+    exact Or.inr ⟨rfl, hal⟩
+
+/-- The call reports `ok`, or `nomem` and then some allocation of the stream did fail. -/
+theorem layout_status (s : Sys) (hm : WFOpt s.map) (hr : WFOpt s.rev) (regs : List LRegion)
+    (hg : ∀ g ∈ regs, regionGuarded g) (al : List Bool) :
+    (setLayout s regs al).1 = .ok ∨ ((setLayout s regs al).1 = .nomem ∧ false ∈ al) := by
+  rcases setLayout_spec s hm hr regs hg al with ⟨m', rev', e, _⟩ | h
+  · rw [e]; exact Or.inl rfl
+  · exact Or.inr h
+
+/-- After `ok` the target map exists, is well-formed and denotes the whole table. -/
+theorem layout_ok_map (s : Sys) (hm : WFOpt s.map) (hr : WFOpt s.rev) (regs : List LRegion)
+    (hg : ∀ g ∈ regs, regionGuarded g) (al : List Bool) (h : (setLayout s regs al).1 = .ok) :
+    ∃ m', (setLayout s regs al).2.map = some m' ∧ WF m' ∧
+      ∀ a, a < W → den m' 0 a = layoutSpec (denOpt s.map) regs a := by
+  rcases setLayout_spec s hm hr regs hg al with ⟨m', rev', e, k1, k2, _⟩ | ⟨h1, _⟩
+  · rw [e]; exact ⟨m', rfl, k1, k2⟩
+  · exact absurd (h1.symm.trans h) status_ne
+
+/-- After `ok` the reverse direct map denotes the reverse of every direct region of the table
+(in particular it exists as soon as the table has a direct region: see `layout_ok_rev_some`). -/
+theorem layout_ok_rev (s : Sys) (hm : WFOpt s.map) (hr : WFOpt s.rev) (regs : List LRegion)
+    (hg : ∀ g ∈ regs, regionGuarded g) (al : List Bool) (h : (setLayout s regs al).1 = .ok) :
+    WFOpt (setLayout s regs al).2.rev ∧
+      ∀ a, a < W → denOpt (setLayout s regs al).2.rev a = revSpec (denOpt s.rev) regs a := by
+  rcases setLayout_spec s hm hr regs hg al with ⟨m', rev', e, _, _, k3, k4, _⟩ | ⟨h1, _⟩
+  · rw [e]; exact ⟨k3, k4⟩
+  · exact absurd (h1.symm.trans h) status_ne
+
+theorem layout_ok_rev_some (s : Sys) (hm : WFOpt s.map) (hr : WFOpt s.rev) (regs : List LRegion)
+    (hg : ∀ g ∈ regs, regionGuarded g) (al : List Bool) (h : (setLayout s regs al).1 = .ok)
+    (hd : ∃ g ∈ regs, g.direct = true) :
+    ∃ r', (setLayout s regs al).2.rev = some r' ∧ r' ≠ [] := by
+  rcases setLayout_spec s hm hr regs hg al with ⟨m', rev', e, _, _, _, _, k5⟩ | ⟨h1, _⟩
+  · rw [e]; exact k5 hd
+  · exact absurd (h1.symm.trans h) status_ne
+
+/-- Without a failing allocation the call succeeds. -/
+theorem layout_no_fault (s : Sys) (hm : WFOpt s.map) (hr : WFOpt s.rev) (regs : List LRegion)
+    (hg : ∀ g ∈ regs, regionGuarded g) (al : List Bool) (hal : false ∉ al) :
+    (setLayout s regs al).1 = .ok := by
+  rcases layout_status s hm hr regs hg al with h | ⟨_, h⟩
+  · exact h
+  · exact absurd h hal
+
+/-! ### Non-vacuity: the ppc64-like table `[direct region, vmalloc region]` from empty slots -/
+example : setLayout ⟨none, none⟩ [⟨0x1000, 0x1fff, 2, true⟩, ⟨0x4000, 0x4fff, 0, false⟩] [] =
+    (.ok, ⟨some [⟨0xfff, NONE⟩, ⟨0xfff, 2⟩, ⟨0x1fff, NONE⟩, ⟨0xfff, 0⟩, ⟨W - 0x5000 - 1, NONE⟩],
+           some [⟨0xfff, RDIRECT⟩, ⟨W - 0x1000 - 1, NONE⟩]⟩) := by decide
+/-- the allocation of the reverse map fails (2nd request): the call fails -/
+example : (setLayout ⟨none, none⟩ [⟨0x1000, 0x1fff, 2, true⟩] [true, false]).1 = .nomem := by decide
+/-- the `realloc` inside the nested assignment fails (3rd request): the call fails -/
+example : (setLayout ⟨none, none⟩ [⟨0x1000, 0x1fff, 2, true⟩] [true, true, false]).1 = .nomem := by decide
+
 end Kdf.Props.C10
